@@ -278,9 +278,57 @@ func (g *Guards) unionAll(lists [][]*Cube) []*Cube {
 	if len(lists) == 1 {
 		return lists[0]
 	}
+	// fast path: single-cube lists that differ in one and the same variable
+	if total == len(lists) {
+		c0 := lists[0][0]
+		dv := -1
+		ok := true
+		for _, l := range lists[1:] {
+			c := l[0]
+			if c.t != c0.t {
+				ok = false
+				break
+			}
+			n := max(len(c.m), len(c0.m))
+			for k := 0; k < n; k++ {
+				if c.mid(k) != c0.mid(k) {
+					if dv == -1 {
+						dv = k
+					} else if dv != k {
+						ok = false
+						break
+					}
+				}
+			}
+			if !ok {
+				break
+			}
+		}
+		if ok && dv >= 0 {
+			id := c0.mid(dv)
+			for _, l := range lists[1:] {
+				id = g.or(id, l[0].mid(dv))
+			}
+			return []*Cube{g.withMask(c0, dv, id)}
+		}
+	}
 	out := make([]*Cube, 0, total)
-	// rule 1: identical value sets -> OR the residual terms
-	if total <= 8 {
+	// rule 1: identical value sets -> OR the residual terms. Disjoint paths
+	// with one and the same residual term cannot have identical value sets.
+	sameTerm := true
+	t0 := lists[0][0].t
+	for _, l := range lists {
+		for _, c := range l {
+			if c.t != t0 {
+				sameTerm = false
+			}
+		}
+	}
+	if sameTerm {
+		for _, l := range lists {
+			out = append(out, l...)
+		}
+	} else if total <= 8 {
 		for _, l := range lists {
 		next:
 			for _, c := range l {
@@ -313,16 +361,32 @@ func (g *Guards) unionAll(lists [][]*Cube) []*Cube {
 	if len(out) < 2 {
 		return out
 	}
-	// rule 2: same term, value sets differ in exactly one variable
+	// rule 2: same term, value sets differ in exactly one variable. Only
+	// variables whose overall value set differs between the lists can qualify.
 	var cand uint64
 	n := 0
 	for _, c := range out {
 		n = max(n, len(c.m))
 	}
 	for v := 0; v < n; v++ {
-		id0 := out[0].mid(v)
-		for _, c := range out[1:] {
-			if c.mid(v) != id0 {
+		var u0 uint16
+		for li, l := range lists {
+			var u uint16
+			first := true
+			for _, c := range l {
+				id := c.mid(v)
+				if first {
+					u, first = id, false
+				} else if u != id {
+					u = g.or(u, id)
+				}
+				if u == 0 {
+					break
+				}
+			}
+			if li == 0 {
+				u0 = u
+			} else if u != u0 {
 				cand |= 1 << uint(v)
 				break
 			}
@@ -347,7 +411,8 @@ func (g *Guards) unionAll(lists [][]*Cube) []*Cube {
 				}
 			}
 		} else {
-			idx := make(map[uint64][]int, len(out))
+			idx := make(map[uint64]int32, len(out))
+			nxt := make([]int32, len(out))
 			for i, c := range out {
 				hv := c.h
 				if id := c.mid(v); id != 0 {
@@ -355,19 +420,27 @@ func (g *Guards) unionAll(lists [][]*Cube) []*Cube {
 				}
 				k := hv ^ uint64(c.t.ID)*K
 				merged := false
-				for _, j := range idx[k] {
-					o := out[j]
-					if o.t != c.t || !sameExcept(o, c, v) {
-						continue
+				head, ok := idx[k]
+				if ok {
+					for j := head; j >= 0; j = nxt[j] {
+						o := out[j]
+						if o.t != c.t || !sameExcept(o, c, v) {
+							continue
+						}
+						out[j] = g.withMask(o, v, g.or(o.mid(v), c.mid(v)))
+						out[i] = nil
+						merged = true
+						changed = true
+						break
 					}
-					out[j] = g.withMask(o, v, g.or(o.mid(v), c.mid(v)))
-					out[i] = nil
-					merged = true
-					changed = true
-					break
 				}
 				if !merged {
-					idx[k] = append(idx[k], i)
+					if ok {
+						nxt[i] = head
+					} else {
+						nxt[i] = -1
+					}
+					idx[k] = int32(i)
 				}
 			}
 		}
